@@ -50,7 +50,7 @@ CHECKS = {
    text="Contracts on numNibbles/instrLen (function + loop contracts) and an inductive invariant of one layout pass of CodeGen::resolveLabels over a directive list of "
         "symbolic length, discharged as generated base/step/exit obligations on the mechanically extracted loop body and Directive class family (ghost reference k / target t; "
         "ghost adjacent pair for the offset chain); the exit lemma of a changeless pass gives 'address after the instruction + operand == label address' / 'operand == word address "
-        "or rejected'; per-directive Hoare triple for emitProgramBin's loop body (bytes decode by the ISA prefix rule to the resolved operand, running offset == layout offset); "
+        "or rejected', and a completeness invariant with a moving ghost witness shows a program is rejected for alignment only if some absolute reference's label is unaligned in the final layout; per-directive Hoare triple for emitProgramBin's loop body (bytes decode by the ISA prefix rule to the resolved operand, running offset == layout offset); "
         "header-word lemma. Termination: lengths never shrink and are <= 8, and a pass that grows no reference moves no label (inductive invariant, unbounded in program length); that the sum of (8-length) then bounds the "
         "number of passes by 7n+2 is paper glue. A BOUNDED cross-check of the measure on programs of <=4/6 directives is kept and not counted as proved.",
    note="Trusted: CBMC+MiniSat, extractor rules (dirx/asmx), WF() of directive objects (constructors unverified; instantiated at visited/dereferenced elements), std::map lookup = "
